@@ -365,6 +365,8 @@ fn glyphs_from_u8_data(font_height: usize, mut data: &[u8]) -> HashMap<char, Gly
     let mut glyphs = HashMap::new();
     let mut ch = 0;
     while !data.is_empty() {
+        #[cfg(icy_engine_verif)]
+        crate::verif_hooks::tick(1);
         let glyph = Glyph {
             data: data[..font_height].into(),
         };
